@@ -30,6 +30,9 @@ pub struct RawImport {
   pub c: u16,
   /// 0 import, 1 dynamic import, 2 import type, 3 export from
   pub form: u8,
+  /// 7 = `with { type: "json" }` (imports and dynamic imports only)
+  #[serde(default)]
+  pub attr: u8,
 }
 
 #[derive(Clone, Debug, Serialize, Deserialize)]
@@ -41,8 +44,8 @@ pub struct Case {
 }
 
 fn raw_import() -> impl Strategy<Value = RawImport> {
-  (0..4u8, any::<u16>(), any::<u16>(), any::<u16>(), 0..4u8)
-    .prop_map(|(kind, a, b, c, form)| RawImport { kind, a, b, c, form })
+  (0..4u8, any::<u16>(), any::<u16>(), any::<u16>(), 0..4u8, 0..8u8)
+    .prop_map(|(kind, a, b, c, form, attr)| RawImport { kind, a, b, c, form, attr })
 }
 
 fn item_of(r: &RawImport, own_path: Option<&str>) -> Item {
@@ -71,17 +74,18 @@ fn item_of(r: &RawImport, own_path: Option<&str>) -> Item {
       SUBPATHS[idx(r.c, SUBPATHS.len())]
     ),
   };
+  let attr = (r.attr == 7).then(|| "json".to_string());
   match r.form {
     1 => Item::Dynamic {
       spec,
-      attr: None,
+      attr,
       types: None,
     },
     2 => Item::ImportType { spec },
     3 => Item::ExportFrom { spec },
     _ => Item::Import {
       spec,
-      attr: None,
+      attr,
       types: None,
     },
   }
